@@ -528,8 +528,11 @@ Step0(o, e) ==
     \* (a failed write of the acknowledgement that was due counts as the attempt: none is missing)
     \* (a connect request that could not be written is the attempt the property asks for, and it stays unanswered: the
     \* reconnect is no longer owed and the tunnel may terminate)
-    [] e.k = "OutErr" -> [oc EXCEPT !.cause = TRUE, !.termCause = @ \/ ~oc.failOnce \/ e.svc = "ConnReq", !.failOnce = FALSE,
-                                    !.reconnDue = IF e.svc = "ConnReq" THEN FALSE ELSE @,
+    [] e.k = "OutErr" /\ e.svc = "ConnReq" ->
+         \* requestConn returns the error, serve ends: the tunnel has terminated (Inbound closed, Sends fail from the next
+         \* quiescent point on), like after a reconnect that stayed unanswered
+         Terminate([oc EXCEPT !.cause = TRUE, !.termCause = TRUE, !.failOnce = FALSE, !.reconnDue = FALSE, !.dead = TRUE, !.deadIdle = oc.idles])
+    [] e.k = "OutErr" -> [oc EXCEPT !.cause = TRUE, !.termCause = @ \/ ~oc.failOnce, !.failOnce = FALSE,
                                     !.ackDue = IF e.svc = "TunnelRes" /\ e.ch = oc.ackDue.ch /\ e.seq = oc.ackDue.seq THEN [ch |-> -1, seq |-> -1] ELSE @,
                                     \* (likewise the disconnect response that was due: the reconnect stays owed)
                                     !.discDue = IF e.svc = "DiscRes" /\ e.ch = oc.discDue THEN -1 ELSE @]
